@@ -540,6 +540,9 @@ class EvalFunc:
                     domain, name = srv_name.split(".", 1)
                     if name in (SERVICE_RELOAD, SERVICE_JUPYTER_KERNEL_START):
                         raise SyntaxError(f"{exc_mesg}: @service conflicts with builtin service")
+                    if srv_name in self.trigger_service:
+                        # the same name given twice: it is released only once
+                        continue
                     Function.service_register(
                         trig_ctx_name,
                         domain,
